@@ -308,6 +308,21 @@ def run_impl(cases_file, out_file, j=NCPU):
     return summary
 
 
+def run_lrwf_lines(header, case_lines, timeout=900):
+    """pvdriver --lrwf: for each case, does the kernel-proved checker RT.checkLRWF accept a witness that every
+    same-position cycle passes through a leader (C08_checked_grammars_terminate then says the parse terminates)?"""
+    if not case_lines:
+        return {}
+    data = (header + "\n" + "\n".join(case_lines) + "\n").encode()
+    p = subprocess.run([DRIVER, "--lrwf"], input=data, stdout=subprocess.PIPE, stderr=subprocess.PIPE, timeout=timeout)
+    res = {}
+    for l in p.stdout.decode().splitlines():
+        f = l.split(" ")
+        if len(f) == 3 and f[0] == "lrwf":
+            res[f[1]] = f[2] == "1"
+    return res
+
+
 def run_wfg_lines(header, case_lines, timeout=600):
     """pvdriver --wfg: for each case, does the kernel-proved checker RT.checkWFG accept a witness of well-formedness
     (C07_checked_grammars_terminate then says the parse terminates)? -> {case id: bool}"""
